@@ -309,6 +309,19 @@ class Executor:
             self.atom_shapes.setdefault(a.key, shape)
         return nf
 
+    def set_meta(self, nf, **kw):
+        from .nf import single_atom
+
+        a = single_atom(nf)
+        if a is not None:
+            self.atom_meta.setdefault(a.key, {}).update(kw)
+
+    def get_meta(self, nf_or_atom):
+        from .nf import single_atom
+
+        a = nf_or_atom if isinstance(nf_or_atom, Atom) else single_atom(nf_or_atom)
+        return self.atom_meta.get(a.key, {}) if a is not None else {}
+
     def mk(self, fname, *args, shape=(), dtype=None, pytype=None) -> Num:
         """Opaque application value with registered shape."""
         nf = app(fname, *args)
@@ -899,6 +912,13 @@ class Executor:
                 else:
                     elems.append(self.generic_element(p, LoopCtx(tag + "'", "for", node, ctx.func), node))
             ctx.info["over"] = it
+            for p in parts:
+                if isinstance(p, Num) and p.shape is not None and len(p.shape) >= 1:
+                    ctx.info["range"] = (NF.const(0), lift(p.shape[0]), NF.const(1))
+                    break
+                if isinstance(p, RangeV):
+                    ctx.info["range"] = (NF.const(0), app("rangelen", p.lo.nf, p.hi.nf, p.step.nf) if p.step.nf.as_const() != 1 else p.hi.nf - p.lo.nf, NF.const(1))
+                    break
             if it.meta["kind"] == "enumerate":
                 start = it.meta.get("start", Num(NF.const(0), (), "int"))
                 return TupleV([Num(idx.nf + start.nf, (), "int", meta={"loopvar": ctx}), elems[0]])
@@ -1325,7 +1345,7 @@ class Executor:
             if v.cond.is_const():
                 return NF.const(int(v.cond.value()))
             nf = app("ind", v.cond.key)
-            self.atom_meta.setdefault(nf.key, {})["cond"] = v.cond
+            self.set_meta(nf, cond=v.cond)
             return nf
         return v.nf
 
@@ -1360,6 +1380,8 @@ class Executor:
         if isinstance(base, ObjV):
             if attr in base.fields:
                 return base.fields[attr]
+            if base.abstract:
+                return BoundExt(base, attr)
             if base.cls is not None:
                 f = self.P.lookup_method(base.cls, attr)
                 if f is not None:
